@@ -1,6 +1,6 @@
 SPECIFICATION Spec
 CONSTANTS IDs = {1, 2}  MaxDg = 4  MaxRep = 2  MaxEnt = 4  Idle = 2  MaxT = 5  MaxFault = 2
   Dsts = {1, 2, 3}  Allow = {1, 2}  HookMap <- HookId  AclCap = 2
-  GuardClosedInInit = TRUE  GuardCloseOnce = TRUE  TouchOnReply = TRUE  CheckEveryDgram = TRUE  StampOwnID = TRUE  LockAcrossDial = TRUE  FailPathCloses = TRUE  VetRewritten = TRUE  SplitExit = FALSE  GenHist = TRUE
+  GuardClosedInInit = TRUE  GuardCloseOnce = TRUE  TouchOnReply = TRUE  CheckEveryDgram = TRUE  StampOwnID = TRUE  LockAcrossDial = TRUE  FailPathCloses = TRUE  FragHdr = TRUE  VetWritten = TRUE  VetRewritten = TRUE  SplitExit = FALSE  GenHist = TRUE
 INVARIANT PrintScn
 CHECK_DEADLOCK FALSE
